@@ -388,7 +388,10 @@ impl Ctx {
         let threads = rayon::current_num_threads() as u64;
         let chunk = if sl.heavy { 1 } else { (count / (threads * 64)).clamp(1, 1 << 16) };
         let nchunks = (count + chunk - 1) / chunk.max(1);
-        let deadline = self.deadline;
+        // no single slice may use more than 40% of the time that is left, so that one oversized slice cannot
+        // starve the ones after it (a capped slice is reported as such: exhaustive=false)
+        let now = Instant::now();
+        let deadline = if self.deadline > now { now + (self.deadline - now).mul_f64(0.4) } else { self.deadline };
         let timed_out = AtomicBool::new(false);
         let skipped = AtomicU64::new(0);
         let harness_panic = std::sync::Mutex::new(None::<String>);
